@@ -208,6 +208,12 @@ pub struct Sim {
     pub waits: Vec<(crate::world::WaitClient, Option<u32>)>,
     /// generate submits with stream options and slow journal flushes (needs the journal sink)
     pub wait_mode: bool,
+    /// open jobs whose latest submit used an unused id below the largest one
+    low_submit: Vec<u32>,
+    /// request variants every submitted task came with
+    task_rqv: BTreeMap<TaskId, ResourceRequestVariants>,
+    /// (proactive_filling_reserve, proactive_filling_max) of the scheduler
+    pub prefill: (u32, u32),
     /// generator profile: 0 basic, 1 prefill-heavy, 2 multi-node, 3 resources/variants/strict policies,
     /// 4 worker time limits and time requests (incl. variants with different time requests)
     pub profile: u64,
@@ -295,7 +301,15 @@ pub fn gen_rq(rng: &mut Rng, profile: u64) -> ResourceRequestVariants {
                 rq(0, vec![cpu(AllocationRequest::Compact(ResourceAmount::new_units(2)))]),
             ]),
             4 => ResourceRequestVariants::new_simple(rq(0, vec![cpu(AllocationRequest::Compact(ResourceAmount::new(1, 5000)))])),
-            _ => cpu_rq(1, 0),
+            _ => match rng.below(4) {
+                // `all` of one resource together with an amount of another one (either order of resource ids)
+                0 => ResourceRequestVariants::new_simple(rq(0, vec![cpu(AllocationRequest::All), gpu(1)])),
+                1 => ResourceRequestVariants::new_simple(rq(0, vec![
+                    cpu(AllocationRequest::Compact(ResourceAmount::new_units(1))),
+                    ResourceRequestEntry { resource: "gpus".to_string(), policy: AllocationRequest::All },
+                ])),
+                _ => cpu_rq(1, 0),
+            },
         },
         4 => {
             let t = |rng: &mut Rng| std::time::Duration::from_secs(*rng.pick(&[0u64, 0, 600, 3600]));
@@ -371,7 +385,29 @@ impl Sim {
 
     /// `journal`: the real `EventStreamer` is given a journal sink (see `World::journal`)
     pub fn new_cfg(seed: u64, journal: bool) -> Sim {
-        let world = World::new(&WorldConfig { prefill_reserve: 1, prefill_max: 1, journal });
+        // proactive filling configuration: a function of the seed alone (printed in the case header for replays)
+        let mut r2 = Rng::new(seed ^ 0x5EED_F111);
+        let prefill = (*r2.pick(&[0u32, 1, 1, 2]), *r2.pick(&[1u32, 1, 2, 3]));
+        Sim::build(seed, journal, prefill)
+    }
+
+    /// header tokens of a case (`reserve=R max=M`)
+    pub fn header(&self) -> String {
+        format!("reserve={} max={}", self.prefill.0, self.prefill.1)
+    }
+
+    /// a simulator for replaying the `act` lines of a case with the given header
+    pub fn for_replay(header: &str) -> Sim {
+        let get = |k: &str, d: u32| header.split(' ').find_map(|t| t.strip_prefix(k).and_then(|v| v.parse().ok())).unwrap_or(d);
+        let prefill = (get("reserve=", 1), get("max=", 1));
+        let wait = header.split(' ').any(|t| t == "wait=1");
+        let mut s = Sim::build(0, wait, prefill);
+        s.wait_mode = wait;
+        s
+    }
+
+    pub fn build(seed: u64, journal: bool, prefill: (u32, u32)) -> Sim {
+        let world = World::new(&WorldConfig { prefill_reserve: prefill.0, prefill_max: prefill.1, journal });
         let mut rng = Rng::new(seed);
         let profile = rng.below(5);
         Sim {
@@ -388,6 +424,9 @@ impl Sim {
             open_jobs: vec![],
             waits: vec![],
             wait_mode: false,
+            low_submit: vec![],
+            task_rqv: Default::default(),
+            prefill,
             panicked: None,
             log: vec![format!("profile {profile}")],
         }
@@ -595,6 +634,17 @@ impl Sim {
     pub fn client_action(&mut self, op_line: String, msg: FromClientMessage) {
         let is_submit = matches!(msg, FromClientMessage::Submit(..));
         let is_forget = matches!(msg, FromClientMessage::ForgetJob(..));
+        // the request class of every task of the submit (for directed submits of the same class later)
+        let submit_rqs: Option<(Option<ResourceRequestVariants>, Vec<(u32, ResourceRequestVariants)>)> = match &msg {
+            FromClientMessage::Submit(r, _) => match &r.submit_desc.task_desc {
+                JobTaskDescription::Array { resource_rq, .. } => Some((Some(resource_rq.clone()), vec![])),
+                JobTaskDescription::Graph { resource_rqs, tasks } => Some((
+                    None,
+                    tasks.iter().filter_map(|t| resource_rqs.get(t.resource_rq_id.as_usize()).map(|r| (t.id.as_num(), r.clone()))).collect(),
+                )),
+            },
+            _ => None,
+        };
         let before: Vec<TaskId> = self.world.server.task_ids();
         // auto-id submit into an existing job: (job, largest id before, number of ids expected)
         let auto: Option<(u32, Option<u32>, u32, Vec<u32>)> = match &msg {
@@ -691,6 +741,14 @@ impl Sim {
             let after: Vec<TaskId> = self.world.server.task_ids();
             let new: Vec<TaskId> = after.iter().filter(|t| !before.contains(t)).cloned().collect();
             self.job.lines.push(format!("out core {}", tids(&new)));
+            if let Some((all, per)) = submit_rqs {
+                for t in &new {
+                    let r = all.clone().or_else(|| per.iter().find(|(id, _)| *id == t.job_task_id().as_num()).map(|(_, r)| r.clone()));
+                    if let Some(r) = r {
+                        self.task_rqv.insert(*t, r);
+                    }
+                }
+            }
         }
         let _ = is_forget;
         self.job_snapshot();
@@ -746,12 +804,28 @@ impl Sim {
             let ranges: Vec<(u32, u32, u32)> = if auto {
                 vec![]
             } else {
-                let start = if malformed && self.rng.chance(1, 2) {
+                // an unused id BELOW the largest one (any unused id is legal; auto ids still continue after the largest)
+                let low: Option<u32> = if !malformed && entries.is_none() && self.rng.chance(1, 4) {
+                    max_existing.and_then(|m| {
+                        let free: Vec<u32> = (0..m).filter(|i| !existing_ids.contains(i)).collect();
+                        if free.is_empty() { None } else { Some(*self.rng.pick(&free)) }
+                    })
+                } else {
+                    None
+                };
+                let start = if let Some(l) = low {
+                    l
+                } else if malformed && self.rng.chance(1, 2) {
                     max_existing.unwrap_or(0)
                 } else {
-                    max_existing.map(|m| m + 1 + self.rng.below(2) as u32).unwrap_or(self.rng.below(3) as u32)
+                    max_existing.map(|m| m + 1 + self.rng.below(3) as u32).unwrap_or(self.rng.below(3) as u32)
                 };
-                let n = entries.unwrap_or(if profile == 1 { self.rng.range(3, 8) as u32 } else { self.rng.range(1, 4) as u32 });
+                if let (Some(_), Some(j)) = (low, job_id) {
+                    if !self.low_submit.contains(&j) {
+                        self.low_submit.push(j);
+                    }
+                }
+                let n = if low.is_some() { 1 } else { entries.unwrap_or(if profile == 1 { self.rng.range(3, 8) as u32 } else { self.rng.range(1, 4) as u32 }) };
                 if self.rng.chance(1, 4) && n >= 2 {
                     // stepped range with exactly n elements
                     let step = 2;
@@ -776,6 +850,21 @@ impl Sim {
         } else {
             // graph
             let n = self.rng.range(1, 5) as u32;
+            // a later submit that depends on several earlier tasks of the job, finished and unfinished ones
+            let late_deps = !malformed && existing_ids.len() >= 2 && self.rng.chance(1, 2);
+            // tasks of the job that failed / were canceled: a dependency on them is refused (fix 2a18501); keep most
+            // submits acceptable
+            let bad_existing: Vec<u32> = if self.rng.chance(5, 6) {
+                job_id
+                    .and_then(|j| self.world.state_ref.get().get_job(JobId::new(j)).map(|job| {
+                        job.tasks.iter().filter(|(_, t)| matches!(t.state,
+                            hyperqueue::server::job::JobTaskState::Failed { .. } | hyperqueue::server::job::JobTaskState::Canceled { .. }
+                            | hyperqueue::server::job::JobTaskState::Aborted { .. })).map(|(k, _)| k.as_num()).collect()
+                    }))
+                    .unwrap_or_default()
+            } else {
+                vec![]
+            };
             let base = max_existing.map(|m| m + 1).unwrap_or(0);
             let mut tasks = Vec::new();
             let mut text_items = Vec::new();
@@ -791,8 +880,9 @@ impl Sim {
                         deps.push(p);
                     }
                 }
+                let late = late_deps && i == n - 1;
                 for &e in &existing_ids {
-                    if self.rng.chance(1, 6) {
+                    if self.rng.chance(1, if late { 2 } else { 6 }) && !bad_existing.contains(&e) {
                         deps.push(e);
                     }
                 }
@@ -1186,6 +1276,115 @@ impl Sim {
         }
     }
 
+    /// State-directed submits (each a legal client request the uniform generator produces too rarely):
+    /// * into an open job that has finished AND unfinished tasks: one new task depending on both kinds (the core no
+    ///   longer knows the finished ones);
+    /// * into an open job whose last submit used an unused id BELOW the largest id: a submit with auto-assigned ids;
+    /// * while a request class has a prefilled backlog on some worker and waiting tasks: a single task of the same
+    ///   class with the highest priority (the backlog is disposed of and returns to the ready queue).
+    fn act_directed_submit(&mut self) -> bool {
+        use hyperqueue::server::job::JobTaskState;
+        use tako::verif::server::SnapTaskState;
+        let mut cands: Vec<(u32, Vec<u32>, Vec<u32>, u32)> = vec![]; // job, finished, unfinished, max id
+        let mut auto_cands: Vec<u32> = vec![];
+        {
+            let state = self.world.state_ref.get();
+            for j in &self.open_jobs {
+                if let Some(job) = state.get_job(JobId::new(*j)) {
+                    if !job.is_open() {
+                        continue;
+                    }
+                    let fin: Vec<u32> = job.tasks.iter().filter(|(_, t)| matches!(t.state, JobTaskState::Finished { .. })).map(|(k, _)| k.as_num()).collect();
+                    let unf: Vec<u32> = job.tasks.iter().filter(|(_, t)| matches!(t.state, JobTaskState::Waiting | JobTaskState::Running { .. })).map(|(k, _)| k.as_num()).collect();
+                    let max = job.tasks.keys().map(|k| k.as_num()).max().unwrap_or(0);
+                    if !fin.is_empty() && !unf.is_empty() {
+                        cands.push((*j, fin, unf, max));
+                    }
+                    if self.low_submit.contains(j) {
+                        auto_cands.push(*j);
+                    }
+                }
+            }
+        }
+        let profile = self.profile;
+        match self.rng.below(3) {
+            0 if !cands.is_empty() => {
+                let (j, fin, unf, max) = self.rng.pick(&cands).clone();
+                let mut deps: Vec<u32> = vec![*self.rng.pick(&fin), *self.rng.pick(&unf)];
+                for d in fin.iter().chain(unf.iter()) {
+                    if !deps.contains(d) && self.rng.chance(1, 3) {
+                        deps.push(*d);
+                    }
+                }
+                let id = max + 1;
+                let (td, _) = self.gen_task_desc();
+                let text = format!("graph {}:{}", id, deps.iter().map(|d| d.to_string()).collect::<Vec<_>>().join("."));
+                let desc = JobTaskDescription::Graph {
+                    resource_rqs: vec![gen_rq(&mut self.rng, profile)],
+                    tasks: vec![TaskWithDependencies {
+                        id: JobTaskId::new(id),
+                        resource_rq_id: LocalResourceRqId::new(0),
+                        task_desc: td,
+                        task_deps: deps.iter().map(|d| JobTaskId::new(*d)).collect(),
+                    }],
+                };
+                self.submit_desc(Some(j), None, desc, text);
+                true
+            }
+            1 if !auto_cands.is_empty() => {
+                let j = *self.rng.pick(&auto_cands);
+                self.low_submit.retain(|x| *x != j);
+                let (td, _) = self.gen_task_desc();
+                let desc = JobTaskDescription::Array { ids: IntArray::new(vec![]), entries: None, resource_rq: gen_rq(&mut self.rng, profile), task_desc: td };
+                self.submit_desc(Some(j), None, desc, "array - -".to_string());
+                true
+            }
+            2 => {
+                // a request class with a prefilled backlog at priority p: first a single task of the same class and
+                // priority (alone in the ready queue at p), then a newcomer of the same class with a higher priority
+                // (the backlog is disposed of and returns to the ready queue at p)
+                let snap = self.world.server.core_snapshot();
+                let user = |raw: u64| ((raw >> 32) as u32 ^ 0x8000_0000) as i32;
+                let mut cands: Vec<(u32, i32, bool)> = vec![]; // class, priority of the backlog, ready queue has an entry at p
+                for (i, q) in snap.queues.iter().enumerate() {
+                    if let Some((p, ids)) = &q.prefill {
+                        if !ids.is_empty() {
+                            cands.push((i as u32, user(*p), q.ready.iter().any(|(rp, _)| rp == p)));
+                        }
+                    }
+                }
+                if cands.is_empty() {
+                    return false;
+                }
+                let (class, p, has_entry) = *self.rng.pick(&cands);
+                let Some(rqv) = snap.tasks.iter().filter(|t| t.rq == class).find_map(|t| self.task_rqv.get(&t.id).cloned()) else { return false };
+                let prio = if has_entry { p + 1 } else { p };
+                let desc = JobTaskDescription::Array { ids: IntArray::from_id(0), entries: None, resource_rq: rqv, task_desc: task_desc(prio, CrashLimit::default(), None) };
+                self.submit_desc(None, None, desc, "array 0:1:1 -".to_string());
+                true
+            }
+            _ => false,
+        }
+    }
+
+    fn submit_desc(&mut self, job_id: Option<u32>, max_fails: Option<u32>, desc: JobTaskDescription, text: String) {
+        let op = format!(
+            "submit job={} mf={} {}",
+            job_id.map(|j| j.to_string()).unwrap_or("-".into()),
+            max_fails.map(|m| m.to_string()).unwrap_or("-".into()),
+            text
+        );
+        let msg = FromClientMessage::Submit(
+            SubmitRequest {
+                job_desc: JobDescription { name: "j".into(), max_fails },
+                submit_desc: JobSubmitDescription { task_desc: desc, submit_dir: "/tmp".into(), stream_path: None },
+                job_id: job_id.map(JobId::new),
+            },
+            None,
+        );
+        self.client_action(op, msg);
+    }
+
     /// State-directed choice: when the core holds a transient state that uniformly random actions rarely hit at the
     /// right moment (a task being retracted from a worker, possibly redirected to another one; prefilled tasks),
     /// aim the next action at it. Every choice ends in a `do_*` primitive, so the `act` lines replay it.
@@ -1276,6 +1475,9 @@ impl Sim {
             return;
         }
         if self.rng.chance(1, 4) && self.act_focus() {
+            return;
+        }
+        if self.rng.chance(1, 12) && self.act_directed_submit() {
             return;
         }
         let nworkers = self.world.workers.len() as u64;
